@@ -3,6 +3,7 @@ import NutsModel.C01.Verifier
 import NutsModel.C01.Subject
 import NutsModel.C01.CaseVariant
 import NutsModel.C01.RevStore
+import NutsModel.C01.Iam
 import NutsModel.Facts.C01
 open Lean Nuts.Drv Nuts.C01 Nuts
 
@@ -205,6 +206,18 @@ def step (st : St) (j : Json) : St × List String :=
       | Json.arr #[Json.str m, Json.arr fs] => (m, fs.toList.filterMap (fun (x : Json) => x.getStr?.toOption))
       | _ => ("", []))
     (st, [if caseVariantMember top (parseTree 64 (jObj j "tree")) then "variant" else "clean"])
+  | "s2s-vp" =>
+    match j.getObjVal? "doc" with
+    | .ok .null => (st, ["unparseable"])
+    | .ok d =>
+      let E := envOf st j
+      let vp := parsePresE E d
+      let validity := match validateS2SMaxValidity Nuts.Facts.C01.s2sMaxValidityMs vp with
+        | .ok _ => "ok" | .err e => e | .panic _ => "panic"
+      let signer := match validatePresentationSigner E vp (jStr j "expected") with
+        | .ok s => s | .err e => "err:" ++ e | .panic _ => "panic"
+      (st, ["validity=" ++ validity ++ " signer=" ++ signer])
+    | _ => (st, ["unparseable"])
   | "revstore" =>
     let f : FindOut := if jBool j "fault" then .error else
       .docs ((jArr j "docs").map (fun x => match x with | Json.bool b => b | _ => false))
